@@ -3,6 +3,7 @@ Throws x gender x every age-group label (those the library produces and arbitrar
 canonical set; masters monotonicity over consecutive bands; every key of every bundled table through the event-code checker."""
 import re, json, os
 from vlib import common, rxmc
+from vlib import orderpass
 from vlib.common import Report, Violation, HarnessError, Acc, pmap, merge
 
 PID = 'C17'
@@ -130,6 +131,9 @@ def run(tier):
     c['exhaustive'] = True
     rep.assumptions += ['a label for which the implement table reports no weight must give the generic code back (no exception)',
                         'weights below 99 are kilograms, others grams (the convention of get_specific_event_code)']
+    I = 'athlib.implements:get_specific_event_code'
+    oc = [(I, (e, g, a)) for e in ('SP', 'sp', 'JT', 'HT', 'WT', 'DT', '4x100', '100', 'SPB') for g, a in (('M', 'SEN'), ('F', 'U17'), ('M', 'V60'), ('F', 'V100'), ('M', 'U13'))]
+    orderpass.part(rep, oc, 'implement-code call-order pass')
     return rep.finish()
 
 
